@@ -401,6 +401,18 @@ def r6_dependent_pairs(ctx):
 
 def r7_every_pair_compared(ctx):
     """In the layer sorter every pair of applicable types goes through the order function: nothing skips the call."""
+    from . import sortexec
+    from .common import run_fallback
+
+    n0 = len(ctx.obs)
+    try:
+        sortexec.law(ctx, "every-pair", "layers")
+    except AnalysisError as e:
+        del ctx.obs[n0:]
+        run_fallback(ctx, _r7_every_pair_compared_shape, e, "layer sorter")
+
+
+def _r7_every_pair_compared_shape(ctx):
     repo = ctx.repo
     srt = A.layer_sorter(repo)
     to = A.typeorder_fn(repo)
